@@ -816,6 +816,10 @@ Definition s_Recursive : bytes := [82;101;99;117;114;115;105;118;101].
 Definition s_Builtin : bytes := [66;117;105;108;116;105;110].
 Definition s_FunctionCode : bytes := [70;117;110;99;116;105;111;110;67;111;100;101].
 Definition s_Function : bytes := [70;117;110;99;116;105;111;110].
+Definition s_Mandatory : bytes := [77;97;110;100;97;116;111;114;121].
+Definition s_mandatory : bytes := [109;97;110;100;97;116;111;114;121].
+Definition s_Unassigned : bytes := [85;110;97;115;115;105;103;110;101;100].
+Definition s_unassigned : bytes := [117;110;97;115;115;105;103;110;101;100].
 Definition s_recursive_function : bytes :=
   [114;101;99;117;114;115;105;118;101;32;102;117;110;99;116;105;111;110].
 Definition k_names : bytes := [110;97;109;101;115].
@@ -859,6 +863,12 @@ Definition env_unpickle (m n : bytes) (args : list val) (h : heap) : eres :=
     end
   else if str_eqb n s_Builtin then
     match args with [] => EOk (VTuple []) h | _ => EErr end
+  else if str_eqb n s_Mandatory then
+    (* since 06af877: placeholder default of a keyword-only parameter without default *)
+    match args with [] => EOk (VTuple [VStr s_mandatory]) h | _ => EErr end
+  else if str_eqb n s_Unassigned then
+    (* since 06af877: a captured variable that was never assigned *)
+    match args with [] => EOk (VTuple [VStr s_unassigned]) h | _ => EErr end
   else if str_eqb n s_FunctionCode then
     match args with
     | [a0; globals; bytecode] =>
